@@ -169,6 +169,16 @@ func (f *FuncVC) oblige(st *State, kind, src, goal string) *Obligation {
 	if st.dead {
 		return nil
 	}
+	if f.con != nil && f.con.Opts["only"] == "frame" {
+		switch kind {
+		case "index", "slice", "nil", "div", "shift", "make", "typeassert", "panic", "decreases":
+			// frame-only contract: run-time safety and termination of this
+			// function are NOT claimed here; the condition is assumed
+			f.usedAssumed["frame-only contract for "+f.name()+": absence of panics and termination are assumed, only the write set is checked"] = true
+			f.assume(st, goal)
+			return nil
+		}
+	}
 	if goal == "true" {
 		// trivially discharged by construction; still counted
 	}
@@ -968,7 +978,7 @@ func (f *FuncVC) pureFacts(st *State, v *Val) {
 			// trigger on the loaded term itself, so the axiom is only
 			// instantiated where that term occurs
 			pat := ""
-			if strings.HasPrefix(term, "(select ") && !strings.Contains(term, "(ite ") {
+			if strings.HasPrefix(term, "(select ") && !strings.Contains(term, "(ite ") && !strings.Contains(term, "(not ") && !strings.Contains(term, "(and ") && !strings.Contains(term, "(or ") && !strings.Contains(term, "(=> ") && !strings.Contains(term, "(= ") && !strings.Contains(term, "(< ") && !strings.Contains(term, "(<= ") {
 				all := true
 				for _, d := range decls {
 					bn := d[1:strings.Index(d, " ")]
@@ -981,6 +991,9 @@ func (f *FuncVC) pureFacts(st *State, v *Val) {
 				if all {
 					pat = term
 				}
+			}
+			if pat != "" && f.sc.usesDefined(pat) {
+				pat = "" // macros may expand to terms that are illegal in patterns
 			}
 			if pat == "" {
 				return // no usable trigger: skip rather than risk an unguided axiom
